@@ -8,7 +8,10 @@ package symx
 // error according to the fault mode selected by the harness (zzvFaultPath):
 //   0 none, 1 MkdirAll fails, 2 os.Create fails, 3 device full: from a solver-chosen
 //   write call onwards every write-type call fails and the final flush in
-//   zip.Writer.Close always fails (zip buffers, so late surfacing is the normal case).
+//   zip.Writer.Close always fails (zip buffers, so late surfacing is the normal case),
+//   4 none, but the target path already holds a longer file: unless the file is opened
+//   with truncation (os.Create, or os.OpenFile with O_TRUNC) the old tail stays behind the
+//   new bytes and the file is not a readable archive.
 // Reading: zip.NewReader/OpenReader over a recorded archive yield its entries;
 // anything else is "not a valid zip file".
 
@@ -33,6 +36,7 @@ type fileObj struct {
 	path   string
 	zip    *zipRec
 	closed bool
+	stale  bool // opened without truncation over a longer existing file: old bytes follow the new ones
 }
 
 type zipW struct {
@@ -57,6 +61,10 @@ type ioWorld struct {
 	counter   int
 	failed    []string // names of the calls that returned an injected error on this path
 	calls     []string
+	// bytes.Buffer reuse: a slice obtained from Buffer.Bytes() is valid only until the buffer is
+	// reset or written again; bufGen counts the generations of a buffer's content
+	bufGen map[*value]int
+	pools  map[*value][]value // sync.Pool: the objects put back (Get returns the most recent one)
 }
 
 func (x *exec) world() *ioWorld {
@@ -65,7 +73,7 @@ func (x *exec) world() *ioWorld {
 	}
 	w, ok := x.env["io"].(*ioWorld)
 	if !ok {
-		w = &ioWorld{files: map[string]*fileObj{}, bufs: map[*value]*zipRec{}, fileOf: map[*value]*zipEntry{}}
+		w = &ioWorld{files: map[string]*fileObj{}, bufs: map[*value]*zipRec{}, fileOf: map[*value]*zipEntry{}, bufGen: map[*value]int{}, pools: map[*value][]value{}}
 		x.env["io"] = w
 	}
 	return w
@@ -141,9 +149,17 @@ func (x *exec) fillZipReader(i *interpreter, reader structure, rec *zipRec) {
 
 func (x *exec) archiveOf(src value) *zipRec {
 	if b, ok := src.(*blob); ok && b.zip != nil {
+		if x.staleBlob(b) {
+			return nil // the buffer these bytes alias was reused: no longer this archive
+		}
 		return b.zip
 	}
 	return nil
+}
+
+// staleBlob: the blob aliases the memory of a bytes.Buffer that was reset or rewritten since.
+func (x *exec) staleBlob(b *blob) bool {
+	return b.bufCell != nil && x.world().bufGen[b.bufCell] != b.bufGen
 }
 
 func init() {
@@ -173,6 +189,33 @@ func init() {
 		w.files[path] = f
 		return tuple{native{f}, iface{}}
 	}
+	externals["os.OpenFile"] = func(fr *frame, args []value) value {
+		x := fr.i.x
+		x.specImpure("os.OpenFile")
+		w := x.world()
+		w.calls = append(w.calls, "os.OpenFile")
+		if w.faultKind == 2 {
+			w.failed = append(w.failed, "os.OpenFile")
+			return tuple{native{nil}, fr.i.mkError("open: is a directory")}
+		}
+		path, _ := args[0].(string)
+		flag := int(asInt64(x.concretize(args[1], "open flags")))
+		const oWRONLY, oRDWR, oAPPEND, oCREATE, oTRUNC = 0x1, 0x2, 0x400, 0x40, 0x200
+		if flag&(oWRONLY|oRDWR) == 0 {
+			x.abandon("os.OpenFile without write access")
+		}
+		_, exists := w.files[path]
+		exists = exists || w.faultKind == 4
+		if !exists && flag&oCREATE == 0 {
+			return tuple{native{nil}, fr.i.mkError("open " + path + ": no such file or directory")}
+		}
+		f := &fileObj{path: path}
+		if exists && (flag&oTRUNC == 0 || flag&oAPPEND != 0) {
+			f.stale = true
+		}
+		w.files[path] = f
+		return tuple{native{f}, iface{}}
+	}
 	externals["(*os.File).Close"] = func(fr *frame, args []value) value {
 		x := fr.i.x
 		x.specImpure("(*os.File).Close")
@@ -199,6 +242,11 @@ func init() {
 			zw.file = f
 		case *value:
 			zw.buf = v
+			w := x.world()
+			if _, used := w.bufs[v]; used {
+				w.bufGen[v]++ // writing into a buffer that already held an archive
+				delete(w.bufs, v)
+			}
 		default:
 			x.abandon("zip.NewWriter over an un-modelled writer")
 		}
@@ -261,9 +309,50 @@ func init() {
 		p, _ := args[0].(*value)
 		if rec, ok := x.world().bufs[p]; ok {
 			x.nblob++
-			return &blob{zip: rec, id: x.nblob, typ: nil}
+			return &blob{zip: rec, id: x.nblob, typ: nil, bufCell: p, bufGen: x.world().bufGen[p]}
 		}
 		x.abandon("bytes.Buffer.Bytes on a buffer that does not hold a recorded archive")
+		return nil
+	}
+	externals["(*bytes.Buffer).Reset"] = func(fr *frame, args []value) value {
+		x := fr.i.x
+		x.specImpure("bytes.Buffer.Reset")
+		p, _ := args[0].(*value)
+		w := x.world()
+		if _, used := w.bufs[p]; used {
+			w.bufGen[p]++
+			delete(w.bufs, p)
+		}
+		return nil
+	}
+	// sync.Pool: Get returns the object put back most recently (the case that matters for
+	// aliasing; the real pool may also drop objects, which only makes reuse rarer), else New().
+	externals["(*sync.Pool).Get"] = func(fr *frame, args []value) value {
+		x := fr.i.x
+		x.specImpure("sync.Pool.Get")
+		p, _ := args[0].(*value)
+		w := x.world()
+		if st := w.pools[p]; len(st) > 0 {
+			v := st[len(st)-1]
+			w.pools[p] = st[:len(st)-1]
+			return v
+		}
+		pt := fr.i.pkgType("sync", "Pool")
+		fn := (*p).(structure)[fieldIndex(pt, "New")]
+		if fn == nil {
+			return iface{}
+		}
+		if cl, isFn := fn.(*closure); isFn && cl == nil {
+			return iface{}
+		}
+		return call(fr.i, fr, 0, fn, nil)
+	}
+	externals["(*sync.Pool).Put"] = func(fr *frame, args []value) value {
+		x := fr.i.x
+		x.specImpure("sync.Pool.Put")
+		p, _ := args[0].(*value)
+		w := x.world()
+		w.pools[p] = append(w.pools[p], args[1])
 		return nil
 	}
 	externals["io.NopCloser"] = func(fr *frame, args []value) value {
@@ -332,7 +421,7 @@ func init() {
 		if f == nil {
 			return tuple{(*value)(nil), fr.i.mkError("open " + path + ": no such file or directory")}
 		}
-		if f.zip == nil || !f.zip.closed {
+		if f.zip == nil || !f.zip.closed || f.stale {
 			return tuple{(*value)(nil), fr.i.mkError("zip: not a valid zip file")}
 		}
 		return tuple{openArchive(fr, f.zip, fr.i.pkgType("archive/zip", "ReadCloser")), iface{}}
